@@ -550,10 +550,60 @@ func (a Actor) Equals(with Item) bool {
 }
 
 func (e Endpoints) GobEncode() ([]byte, error) {
-	return nil, nil
+	var (
+		mm      = make(map[string][]byte)
+		err     error
+		hasData bool
+	)
+	for name, it := range map[string]Item{
+		"uploadMedia":                e.UploadMedia,
+		"oauthAuthorizationEndpoint": e.OauthAuthorizationEndpoint,
+		"oauthTokenEndpoint":         e.OauthTokenEndpoint,
+		"provideClientKey":           e.ProvideClientKey,
+		"signClientKey":              e.SignClientKey,
+		"sharedInbox":                e.SharedInbox,
+	} {
+		if it == nil {
+			continue
+		}
+		if mm[name], err = gobEncodeItem(it); err != nil {
+			return nil, err
+		}
+		hasData = true
+	}
+	if !hasData {
+		return []byte{}, nil
+	}
+	bb := bytes.Buffer{}
+	g := gob.NewEncoder(&bb)
+	if err := g.Encode(mm); err != nil {
+		return nil, err
+	}
+	return bb.Bytes(), nil
 }
 
 func (e *Endpoints) GobDecode(data []byte) error {
+	if e == nil || len(data) == 0 {
+		return nil
+	}
+	mm, err := gobDecodeObjectAsMap(data)
+	if err != nil {
+		return err
+	}
+	for name, it := range map[string]*Item{
+		"uploadMedia":                &e.UploadMedia,
+		"oauthAuthorizationEndpoint": &e.OauthAuthorizationEndpoint,
+		"oauthTokenEndpoint":         &e.OauthTokenEndpoint,
+		"provideClientKey":           &e.ProvideClientKey,
+		"signClientKey":              &e.SignClientKey,
+		"sharedInbox":                &e.SharedInbox,
+	} {
+		if raw, ok := mm[name]; ok {
+			if *it, err = gobDecodeItem(raw); err != nil {
+				return err
+			}
+		}
+	}
 	return nil
 }
 
